@@ -29,6 +29,16 @@ impl Driven for D {
          _ => panic!("verif harness: unknown relation {}", rel),
       }
    }
+   fn clear(&mut self, rel: &str) {
+      match rel {
+         "e" => { self.0.e = Default::default(); },
+         "u" => { self.0.u = Default::default(); },
+         "succ" => { self.0.succ = Default::default(); },
+         "step" => { self.0.step = Default::default(); },
+         "d" => { self.0.d = Default::default(); },
+         _ => panic!("verif harness: unknown relation {}", rel),
+      }
+   }
    fn run(&mut self) { self.0.run(); }
    fn dump(&self) -> Value {
       let mut m: Vec<(String, Value)> = vec![];
